@@ -2,9 +2,19 @@
 """gen_par.py -- HashMap histories with rayon operations: caller-chosen split trees driven through
 the real RawIterRange::split (exhaustive for small trees in the thorough tier), and par_iter /
 par_iter_mut / par_keys / par_values / into_par_iter / par_drain (with early-stopping consumers) /
-par_extend on thread pools of 1..64 threads."""
+par_extend / from_par_iter / par_eq on thread pools of 1..64 threads.
+make_set_script: two HashSets with spar_iter / sinto_par_iter / spar_drain / spar_extend and the
+parallel set algebra and predicates; make_table_script: HashTable (element sizes 0, 1, 2, 24, 32,
+200) with tpar_iter / tpar_iter_mut / tinto_par_iter / tpar_drain.  Sets and tables come in sizes
+below one group (1-3 elements), around a group, and in the hundreds, with tombstones."""
 import random, sys, itertools
-from gen_map import Gen, PLANS
+from gen_map import Gen, PLANS, plan_hash
+
+THREADS = [1, 2, 3, 4, 8, 16, 33, 64]
+
+def takes(rng, n):
+    """stop positions for an early-stopping consumer: small numbers up to more than the size"""
+    return rng.choice([0, 1, 2, 3, max(1, n // 3), max(1, n // 2), max(0, n - 1), n, n + 1, n + 5, 10**6])
 
 def make_script(rng, name, exhaustive_trees=False):
     kind = rng.choice(["map-drop", "map-drop", "map-plain"])
@@ -36,9 +46,30 @@ def make_script(rng, name, exhaustive_trees=False):
                     g.emit("par_split " + bits if bits else "par_split")
             else:
                 th = rng.choice([1, 2, 3, 4, 8, 16, 33, 64])
-                c = rng.choice(["par_iter", "par_keys", "par_values", "par_iter_mut", "par_values_mut", "into_par_iter", "par_drain", "par_drain", "par_extend"])
+                c = rng.choice(["par_iter", "par_keys", "par_values", "par_iter_mut", "par_values_mut", "into_par_iter", "par_drain", "par_drain", "par_extend",
+                                "from_par_iter", "par_eq", "par_eq"])
                 if c in ("par_iter", "par_keys", "par_values"):
                     g.emit(f"{c} {th}")
+                elif c == "from_par_iter":
+                    items = [f"{g.anykey() if rng.random() < 0.7 else rng.randrange(3)}:{g.st()}:{g.val()}" for _ in range(rng.choice([0, 1, 2, 5, 20, 60]))]
+                    g.emit(f"from_par_iter {th} " + " ".join(items))
+                elif c == "par_eq":
+                    # against the other map: a fresh clone (equal, same layout), a clone of a map that was
+                    # reallocated since (equal, different layout), one that differs in a single value or
+                    # key, or whatever the history left behind
+                    r = rng.random()
+                    if r < 0.6:
+                        g.emit("o_clone"); steps += 1
+                        r2 = rng.random()
+                        if r2 < 0.25:
+                            g.emit(f"reserve {rng.choice([20, 100, 500])}"); steps += 1
+                        elif r2 < 0.5 and g.contents:
+                            g.op_insert(g.present()); steps += 1          # same keys, one value differs
+                        elif r2 < 0.65 and g.contents:
+                            g.op_remove(g.present()); steps += 1
+                        elif r2 < 0.8:
+                            g.op_insert(g.absent()); steps += 1
+                    g.emit(f"par_eq {th}")
                 elif c in ("par_iter_mut", "par_values_mut"):
                     add = rng.randrange(1, 4)
                     g.emit(f"{c} {th} {add}")
@@ -58,7 +89,148 @@ def make_script(rng, name, exhaustive_trees=False):
             steps += 1
     return f"=== {name} plan={plan} nkeys={nkeys}\n" + "\n".join(g.lines) + "\n"
 
+def make_set_script(rng, name):
+    kind = rng.choice(["set-drop", "set-drop", "set-plain"])
+    plan = rng.choice(PLANS)
+    nkeys = rng.choice([2, 3, 6, 14, 20, 40, 90, 300, 500])
+    salt = rng.getrandbits(32)
+    lines = [f"kind {kind}"] + [f"hash {k} {plan_hash(plan, k, rng, salt)}" for k in range(nkeys + 8)]
+    cont = {"A": set(), "B": set()}
+    stamp = [0]
+    def st():
+        stamp[0] += 1
+        return stamp[0]
+    def key():
+        return rng.randrange(nkeys + 4)
+    def bulk(t, lo, hi):
+        # fill through the parallel extend itself (one step, many elements)
+        ks = [key() for _ in range(rng.randrange(lo, hi + 1))]
+        lines.append(f"{t} spar_extend {rng.choice(THREADS)} " + " ".join(f"{k}:{st()}" for k in ks))
+        cont[t].update(ks)
+    steps = 0
+    length = rng.choice([30, 60, 100])
+    if nkeys >= 90:
+        bulk("A", nkeys // 2, nkeys); bulk("B", nkeys // 3, nkeys); steps += 2
+    while steps < length:
+        phase = rng.choice(["fill", "fill", "mirror", "tomb", "par1", "par1", "par2", "par2", "par2", "shrink"])
+        for _ in range(rng.randrange(1, 10)):
+            t = rng.choice("AB")
+            th = rng.choice(THREADS)
+            if phase == "fill":
+                k = key()
+                lines.append(f"{t} sinsert {k} {st()}"); cont[t].add(k)
+            elif phase == "mirror":
+                k = key()
+                lines.append(f"A sinsert {k} {st()}"); lines.append(f"B sinsert {k} {st()}")
+                cont["A"].add(k); cont["B"].add(k); steps += 1
+            elif phase == "tomb":
+                # insert then remove: leaves DELETED control bytes behind in full groups
+                if cont[t] and rng.random() < 0.6:
+                    k = rng.choice(sorted(cont[t]))
+                    lines.append(f"{t} sremove {k}"); cont[t].discard(k)
+                else:
+                    k = key()
+                    lines.append(f"{t} sinsert {k} {st()}"); lines.append(f"{t} sremove {k}"); cont[t].discard(k); steps += 1
+            elif phase == "shrink":
+                lines.append(f"{t} " + rng.choice(["shrinktofit", f"reserve {rng.randrange(0, 40)}", "clear"]))
+                if lines[-1].endswith("clear"):
+                    cont[t] = set()
+            elif phase == "par1":
+                c = rng.choice(["spar_iter", "spar_iter", "sinto_par_iter", "spar_drain", "spar_drain", "spar_extend"])
+                if c == "spar_iter":
+                    lines.append(f"{t} spar_iter {th}")
+                elif c == "sinto_par_iter":
+                    lines.append(f"{t} sinto_par_iter {th}"); cont[t] = set()
+                elif c == "spar_drain":
+                    lines.append(f"{t} spar_drain {th} {takes(rng, len(cont[t]))}"); cont[t] = set()
+                else:
+                    bulk(t, 0, rng.choice([1, 4, 20, 60]))
+            else:
+                lines.append(rng.choice(["spar_union", "spar_intersection", "spar_difference", "spar_symmetric_difference",
+                                         "spar_is_subset", "spar_is_superset", "spar_is_disjoint", "spar_eq"]) + f" {th}")
+                if rng.random() < 0.15:
+                    # make the predicates true now and then: B := superset / copy of A
+                    for k in sorted(cont["A"])[:40]:
+                        if k not in cont["B"]:
+                            lines.append(f"B sinsert {k} {st()}"); cont["B"].add(k); steps += 1
+                    lines.append(rng.choice(["spar_is_subset", "spar_is_superset", "spar_eq", "spar_is_disjoint"]) + f" {th}"); steps += 1
+            steps += 1
+    return f"=== {name} plan={plan} nkeys={nkeys}\n" + "\n".join(lines) + "\n"
+
+TABLE_KINDS = ["table-drop", "table-drop", "table-drop", "table-plain", "table-200", "table-a64", "table-1", "table-2", "table-zst"]
+
+def make_table_script(rng, name, kind=None, size=None):
+    kind = kind or rng.choice(TABLE_KINDS)
+    plan = rng.choice(PLANS)
+    # size class: below one group (1-3 elements), around a group, several groups, hundreds
+    size = size or rng.choice([1, 2, 3, 3, 7, 14, 16, 30, 60, 120, 200, 300])
+    if kind == "table-1":
+        size = min(size, 120)
+    if plan not in ("mix", "sametag", "seq") and size > 120:
+        plan = rng.choice(["mix", "sametag", "seq"])     # long probe chains make the invariant check of big tables slow
+    nkeys = max(2, min(size, 250 if kind == "table-1" else 10**6))
+    salt = rng.getrandbits(32)
+    lines = [f"kind {kind}"] + [f"hash {k} {plan_hash(plan, k, rng, salt)}" for k in range(nkeys + 4)]
+    if kind == "table-zst" or rng.random() < 0.2:
+        lines.append(f"twithcap {rng.choice([size, size + 3, 2 * size + 8])}")
+    count = {}                   # id -> copies stored (insert_unique admits duplicates)
+    stamp = [0]
+    def n():
+        return sum(count.values())
+    def ins(k=None):
+        k = rng.randrange(nkeys + 2) if k is None else k
+        stamp[0] += 1
+        if rng.random() < 0.7:
+            lines.append(f"tinsertunique {k} {stamp[0]} {rng.randrange(100)}")
+            count[k] = count.get(k, 0) + 1
+        else:
+            lines.append(f"tentryorinsert {k} {stamp[0]} {rng.randrange(100)}")
+            count[k] = max(1, count.get(k, 0))
+        return k
+    def rem(k):
+        lines.append(f"tfindentryremove {k} id {k}")
+        if count.get(k, 0) > 0:
+            count[k] -= 1
+            if count[k] == 0:
+                del count[k]
+    def fill():
+        target = rng.choice([1, 2, 3, size, size, max(1, size // 2)])
+        while n() < target:
+            ins()
+        if rng.random() < 0.6:
+            # tombstones: insert then remove, and remove some of the stored ones
+            for _ in range(rng.randrange(1, 2 + min(size, 40) // 2)):
+                if count and rng.random() < 0.5:
+                    rem(rng.choice(sorted(count)))
+                else:
+                    rem(ins())
+    pars = 0
+    want = rng.choice([6, 10, 16]) if size <= 120 else rng.choice([4, 6])
+    while pars < want:
+        fill()
+        for _ in range(rng.randrange(1, 5)):
+            th = rng.choice(THREADS)
+            c = rng.choice(["tpar_iter", "tpar_iter", "tpar_iter_mut", "tpar_iter_mut", "tinto_par_iter", "tpar_drain", "tpar_drain", "tpar_drain"])
+            pars += 1
+            if c == "tpar_iter":
+                lines.append(f"tpar_iter {th}")
+            elif c == "tpar_iter_mut":
+                lines.append(f"tpar_iter_mut {th} {rng.randrange(1, 4)}")
+            elif c == "tinto_par_iter":
+                lines.append(f"tinto_par_iter {th}"); count.clear()
+                break
+            else:
+                lines.append(f"tpar_drain {th} {takes(rng, n())}"); count.clear()
+                if rng.random() < 0.3:
+                    lines.append(f"tpar_drain {th} {takes(rng, 0)}")     # an empty table that kept its allocation
+                    lines.append(f"tpar_iter {th}")
+                break
+    lines.append("tlen")
+    return f"=== {name} plan={plan} size={size}\n" + "\n".join(lines) + "\n"
+
 if __name__ == "__main__":
     seed, count = int(sys.argv[1]), int(sys.argv[2])
     rng = random.Random(seed)
-    sys.stdout.write("".join(make_script(rng, f"p{seed}_{i}") for i in range(count)))
+    which = sys.argv[3] if len(sys.argv) > 3 else "map"
+    f = {"map": make_script, "set": make_set_script, "table": make_table_script}[which]
+    sys.stdout.write("".join(f(rng, f"p{which[0]}{seed}_{i}") for i in range(count)))
